@@ -20,6 +20,7 @@ pub mod c19;
 pub mod c20;
 pub mod nodeops;
 pub mod scale;
+pub mod inputops;
 
 pub fn dispatch(_cmd: &str, _a: &Args) -> bool {
     if c08::dispatch(_cmd, _a) || c09::dispatch(_cmd, _a) {
@@ -33,6 +34,7 @@ pub fn dispatch(_cmd: &str, _a: &Args) -> bool {
         "c11" => c11::run(_a),
         "c11-child" => c11::child(_a),
         "scale" => scale::run(_a),
+        "c10-ops" => inputops::run(_a),
         "scale-child" => scale::child(_a),
         "c12" => c12::run(_a),
         "c13" => c13::run(_a),
